@@ -205,9 +205,17 @@ def check_gate(case, ctx):
             rep_ids = [r["id"] for r in recs if r["reporting"]]
             if rep_ids:
                 u = next(u for u in c2["units"] if u["id"] == rep_ids[0])
-                c2["extra"] = list(c2.get("extra", [])) + [
-                    {"id": u["id"], "st": u["st"], "pev": u["feed"]["pev"], "rd": u["feed"]["rd"], "rg": u["feed"]["rg"], "ro": u["feed"]["ro"]}
-                ]
+                other_states = [s for s in c2["states"] if s != u["st"] and s not in c2["req"]["mp"].get("postal_code_blocklist", [])]
+                if other_states and len(rep_ids) % 2 == 0:
+                    # the same id once more as a reporting unit of ANOTHER state (baseline and feed)
+                    twin = copy.deepcopy(u)
+                    twin["st"] = other_states[0]
+                    c2["units"].append(twin)
+                    ctx.label("duplicate_id_cases:other_state")
+                else:
+                    c2["extra"] = list(c2.get("extra", [])) + [
+                        {"id": u["id"], "st": u["st"], "pev": u["feed"]["pev"], "rd": u["feed"]["rd"], "rg": u["feed"]["rg"], "ro": u["feed"]["ro"]}
+                    ]
                 r2 = run_case(c2)
                 ctx.label("duplicate_id_cases")
                 if r2.ok or type(r2.exc).__name__ != "ModelClientException":
